@@ -73,6 +73,17 @@ def workloads(r, t):
             ds.PatientID = 'x' * (1 + (t + k) % 30)
             return dsutils.encode(ds, k % 2 == 0, True)
         out.append(('dataset-encode', dataset))
+        # a burst of look-ups over a handful of (command, code) pairs that every thread uses
+        def burst(t=t, k=k):
+            pairs = [(0xFF00, D.CFindRSPMessage), (0x0000, D.CFindRSPMessage), (0xB000, D.CStoreRSPMessage),
+                     (0xFF00, D.CStoreRSPMessage), (0x0000, None), (0xFF01, D.CFindRSPMessage)]
+            out_ = []
+            for j in range(24):
+                code_, cmd_ = pairs[(t + k + j * (1 + t % 3)) % len(pairs)]
+                s_ = statuses.Status(code_, cmd_)
+                out_.append((code_, s_.status_type, s_.is_pending, s_.is_success))
+            return out_
+        out.append(('status-burst', burst))
         code = [0x0000, 0xFF00, 0xFF01, 0xB000, 0xC000, 0xA700, 0xFE00, 0x0110][(t + k) % 8]
         cmd = [D.CFindRSPMessage, D.CStoreRSPMessage, D.CGetRSPMessage, None][(t * 3 + k) % 4]
         out.append(('status', lambda code=code, cmd=cmd: (lambda s: (int(s), s.status_type, s.is_pending,
